@@ -6,6 +6,7 @@ use chess::board::color::Color;
 use chess::board::piece::Piece;
 use chess::board::Board;
 use chess::chess_move::chess_move::ChessMove;
+use chess::game::game::Game;
 use std::collections::HashMap;
 use std::io::Write;
 use std::panic::{catch_unwind, AssertUnwindSafe};
@@ -1462,6 +1463,60 @@ fn rights_revisits(e: &mut Exec, rng: &mut Rng, kv: &Args, positions: &[(String,
     }
 }
 
+/// C14 (thorough observation of the statement): the real player-vs-player loop, fed miniature games
+/// that end in mate, every move typed as coordinates or as its printed notation, with rejected
+/// inputs (mutated labels, illegal pairs, junk) in between; the boards it prints are compared.
+fn pvp_games(e: &mut Exec, rng: &mut Rng, count: usize, shard: usize, shards: usize) {
+    const MINIATURES: [&str; 6] = [
+        "f2f3 e7e5 g2g4 d8h4",
+        "e2e4 e7e5 f1c4 b8c6 d1h5 g8f6 h5f7",
+        "e2e4 e7e5 g1f3 d7d6 f1c4 c8g4 b1c3 g7g6 f3e5 g4d1 c4f7 e8e7 c3d5",
+        "e2e4 c7c6 d2d4 d7d5 b1c3 d5e4 c3e4 b8d7 d1e2 g8f6 e4d6",
+        "e2e4 a7a6 e4e5 f7f5 e5f6 g7g5 d1h5",
+        "e2e4 e7e5 g1f3 d7d6 d2d4 c8g4 d4e5 g4f3 d1f3 d6e5 f1c4 g8f6 f3b3 d8e7 b1c3 c7c6 c1g5 b7b5 c3b5 c6b5 c4b5 b8d7 e1c1 a8d8 d1d7 d8d7 h1d1 e7e6 b5d7 f6d7 b3b8 d7b8 d1d8",
+    ];
+    for i in 0..count {
+        if i % shards != shard {
+            continue;
+        }
+        let line = MINIATURES[i % MINIATURES.len()];
+        let mut g = Game::new(0);
+        let mut inputs: Vec<String> = vec![];
+        for mv in line.split_whitespace() {
+            let (f, t) = (parse_sq(&mv[0..2]), parse_sq(&mv[2..4]));
+            let labelled = g.enumerated_candidate_moves();
+            let label = labelled.iter().find(|(m, _)| idx(m.from_square()) == f && idx(m.to_square()) == t).map(|(_, l)| l.clone());
+            // rejected inputs first
+            for _ in 0..rng.below(3) {
+                let junk = match rng.below(4) {
+                    0 => label.as_ref().map(|l| mutate_label(rng, l)).unwrap_or_else(|| "zz".to_string()),
+                    1 => format!("{}{}", sqname(rng.below(64)), sqname(rng.below(64))),
+                    2 => ["", "e9", "O-O-O-O", "resign", "Ke1e2e3", "a1a1"][rng.below(6)].to_string(),
+                    _ => labelled.get(rng.below(labelled.len().max(1))).map(|(_, l)| mutate_label(rng, l)).unwrap_or_else(|| "x".to_string()),
+                };
+                // only inputs the model can classify without spaces; an accidentally legal one is fine:
+                // the model plays it too and the script simply diverges from the miniature
+                let junk: String = junk.chars().filter(|c| !c.is_whitespace() && *c != '|').collect();
+                if junk.is_empty() {
+                    inputs.push("-".to_string());
+                } else {
+                    inputs.push(junk);
+                }
+            }
+            let text = match (&label, rng.chance(1, 2)) {
+                (Some(l), true) => l.clone(),
+                _ => mv.to_string(),
+            };
+            inputs.push(text);
+            if g.apply_chess_move_by_from_to_coordinates(bb(f), bb(t)).is_ok() {
+                g.board_mut().toggle_turn();
+            }
+        }
+        e.exec(&format!("pvp {}", inputs.join("|")));
+        e.tally("pvp-scripts");
+    }
+}
+
 fn walk_positions(rng: &mut Rng, corpus: &[(String, Pos)], count: usize, max_pieces: usize) -> Vec<(String, Pos)> {
     let mut out = vec![];
     let mut mg = chess::move_generator::MoveGenerator::with_cache_capacity(64);
@@ -1986,6 +2041,9 @@ pub fn run(kv: &Args) {
                 e.exec(&format!("watch {} {}", limit, d));
                 e.tally("watch-games");
             }
+        }
+        "pvp" => {
+            pvp_games(&mut e, &mut rng, kv.num("count", 6) as usize, shard, shards);
         }
         "apirepetition" => {
             if shard == 0 {
